@@ -141,12 +141,7 @@ fn lane_laws<I: Interpolate<i16>, const NQ: usize>(interp: &I) {
 fn c19_lane_laws_midpoint() {
     lane_laws::<_, 4>(&Midpoint);
 }
-//@ prop=C19,C01 tier=thorough mem=16 timeout=7200 flags=modelmap uses=cut inst="quantiles_mut(8 ascending q, Midpoint) on Array1<i16> len 3 and on a symbolic permutation of it" bounds="i8-range payloads, all 6 permutations; unwind 20"
-#[kani::proof]
-#[kani::unwind(20)]
-fn c19_lane_laws_midpoint_q8() {
-    lane_laws::<_, 8>(&Midpoint);
-}
+// (the 8-request form of this harness ran out of memory at 32 GB and is not registered)
 //@ prop=C19,C01 tier=thorough mem=10 timeout=5400 flags=modelmap uses=cut inst="quantiles_mut([0, 0.25, 0.5+ulp, 1], Linear) on Array1<i16> len 3 and a permutation" bounds="i8-range payloads; unwind 12"
 #[kani::proof]
 #[kani::unwind(12)]
